@@ -56,6 +56,15 @@ def run(c):
             for _ in range(60 if thorough else 8):                                   # random subsets, random length classes
                 sub = rng.sample(ks, rng.randint(1, len(ks)))
                 add(m, merge_wants(m, [rng.choice(per_slot[k]) for k in sub]), via="plain" if t["family"] != "ENV" else "body")
+        # every value of the low nibble of every half-octet element, inside the full set (value/identifier collisions)
+        optslots0 = [s_ for s_ in t["slots"] if not s_["mand"]]
+        if any(s_["half"] for s_ in optslots0):
+            fullw = merge_wants(m, list(reps.values()) or ws[:1])
+            for v in range(16):
+                w = json.loads(json.dumps(fullw))
+                for k, s_ in enumerate(optslots0):
+                    if s_["half"]: w["opt"][k] = dict(p=True, iei=0, len=0, v=[s_["iei"] * 16 + v])
+                add(m, w, via="body" if v % 2 else None)
         # adversarial fills of the full set and of a few singles
         for w in [merge_wants(m, list(reps.values()) or ws[:1])] + rng.sample(ws, min(len(ws), 6 if thorough else 2)):
             for fv in fill_variants(m, w): add(m, fv, via="body")
